@@ -118,11 +118,12 @@ func (r *chunkReader) Read(p []byte) (int, error) {
 	if len(r.cs) == 0 {
 		return 0, io.EOF
 	}
-	if len(p) < len(r.cs[0]) {
-		panic("chunk larger than buffer")
-	}
 	n := copy(p, r.cs[0])
-	r.cs = r.cs[1:]
+	if n < len(r.cs[0]) {
+		r.cs[0] = r.cs[0][n:] // a reader keeps what did not fit, like recvDataReader
+	} else {
+		r.cs = r.cs[1:]
+	}
 	return n, nil
 }
 
@@ -135,7 +136,7 @@ func (w *chunkWriter) Write(p []byte) (int, error) {
 func (w *chunkWriter) Close() error { return nil }
 
 func runReader(t *trzsz.VerifEscapeTable, cs [][]byte, sizes []int, dflt int) string {
-	r := trzsz.VerifNewEscapeReader(t, &chunkReader{cs})
+	r := trzsz.VerifNewEscapeReader(t, &chunkReader{append([][]byte(nil), cs...)}) // the reader advances its own copy of the list
 	var outs [][]byte
 	for i := 0; ; i++ {
 		size := dflt
@@ -153,6 +154,9 @@ func runReader(t *trzsz.VerifEscapeTable, cs [][]byte, sizes []int, dflt int) st
 				return hxs(outs) + ":err?" + err.Error()
 			}
 			return fmt.Sprintf("%s:err:%d", hxs(outs), code)
+		}
+		if n > len(p) || n < 0 {
+			return fmt.Sprintf("%s:bad-count:%d>%d", hxs(outs), n, len(p))
 		}
 		outs = append(outs, append([]byte(nil), p[:n]...))
 		if i > 1<<20 {
@@ -214,6 +218,25 @@ func genEscape(c *ctx) {
 			}
 		}
 		if len(ps) == 0 {
+			// an EMPTY announced table: the reader must pass the stream through, whatever the
+			// caller's buffer sizes (smaller than the chunks too)
+			for k := 0; k < 3 && len(d) > 0; k++ {
+				cs := c.split(d, 1+c.rng.Intn(9))
+				nsz := c.rng.Intn(4)
+				sizes := make([]int, nsz)
+				for i := range sizes {
+					sizes[i] = 1 + c.rng.Intn(7)
+				}
+				dflt := []int{1, 2, 3, 7, 64, 32768}[c.rng.Intn(6)]
+				res := runReader(t, cs, sizes, dflt)
+				c.emit(true, "er_run_empty", res, hxs(cs), ints(sizes), fmt.Sprint(dflt))
+				want := strings.ReplaceAll(hx(d), "-", "") + ":eof"
+				if got := strings.ReplaceAll(strings.ReplaceAll(res, ",", ""), "-", ""); got != want {
+					c.violate("stream-roundtrip:empty-table", "escapeReader with an empty announced table does not return the stream",
+						fmt.Sprintf("data=%s chunks=%s sizes=%s dflt=%d got=%s", hx(d), hxs(cs), ints(sizes), dflt, res))
+				}
+			}
+			c.count("kind:empty-table")
 			return
 		}
 		// streaming reader over random splits of the escaped stream and of raw data
@@ -290,6 +313,10 @@ func genEscape(c *ctx) {
 	for i := 0; i < c.pick(300, 6000); i++ {
 		ps := c.wfTable()
 		one(ps, c.denseData(ps, c.rng.Intn(40)), "wf-table")
+	}
+	// 2b. the empty announced table
+	for i := 0; i < c.pick(60, 600); i++ {
+		one(nil, c.denseData(nil, 1+c.rng.Intn(300)), "empty-table")
 	}
 	// 3. arbitrary (possibly ill-formed) tables
 	for i := 0; i < c.pick(150, 3000); i++ {
